@@ -20,7 +20,7 @@ def cases(tier, seed):
         return '"' + s.replace('\\', '\\\\').replace('"', '\\"') + '"'
     # instants: day boundaries across 1000..9999 on a stride, all hours, leap days, ISO-week edge years
     instants = [0, 1, -1, 999, 1000, 86399999, 86400000, -86400000, 1521801216617, 1e12, -1e12, 253402300799999, -30610224000000, 9.2e12, 9.3e12]
-    stride = 997 if tier == 'quick' else 13
+    stride = 997 if tier == 'quick' else 41
     y0 = datetime.date(1000, 1, 1).toordinal(); y1 = datetime.date(9999, 12, 31).toordinal(); ep = datetime.date(1970, 1, 1).toordinal()
     for o in range(y0, y1, stride * (20 if tier == 'quick' else 1)):
         base = (o - ep) * 86400000
